@@ -194,8 +194,8 @@ class PW:
                 return [(env, dom)]
             self.eval_split(st.value, env, dom)
             return [(env, dom)]
-        if isinstance(st, ast.Pass):
-            return [(env, dom)]
+        if isinstance(st, (ast.Pass, ast.Import, ast.ImportFrom)):
+            return [(env, dom)]          # imported names are resolved where they are used (bisect only)
         if isinstance(st, ast.AugAssign) and isinstance(st.target, ast.Name):
             fake = ast.BinOp(left=ast.Name(id=st.target.id, ctx=ast.Load()), op=st.op, right=st.value)
             ast.copy_location(fake, st)
@@ -225,6 +225,8 @@ class PW:
             for (truth, d) in self.cond(n.test, env, dom):
                 out.extend(self.eval_split(n.body if truth else n.orelse, env, d))
             return out
+        if isinstance(n, ast.Call) and self._bisect_kind(n.func, env):
+            return self._bisect(n, env, dom)
         if isinstance(n, ast.Call):
             f = self.ev(n.func, env)
             if isinstance(f, Closure) and isinstance(f.node, ast.FunctionDef):
@@ -258,6 +260,55 @@ class PW:
             return out
         return [(self.ev(n, env), dom)]
 
+
+    def _bisect_kind(self, f, env):
+        names = ('bisect_left', 'bisect_right', 'bisect')
+        if isinstance(f, ast.Attribute) and isinstance(f.value, ast.Name) and f.value.id == 'bisect' and 'bisect' not in env and f.attr in names:
+            return f.attr
+        if isinstance(f, ast.Name) and f.id in names and f.id not in env:
+            return f.id
+        return None
+
+    def _bisect(self, n, env, dom):
+        """bisect over a constant sorted table: the index is a step function of the income.
+        bisect_left(a, x) = k  iff  a[k-1] < x <= a[k];  bisect_right(a, x) = k  iff  a[k-1] <= x < a[k]."""
+        kind = self._bisect_kind(n.func, env)
+        if len(n.args) != 2 or n.keywords:
+            raise AnalysisError(f'{self.rel}:{n.lineno} bisect with lo/hi bounds is outside the piecewise-affine subset')
+        seq = self.ev(n.args[0], env)
+        x = self.ev(n.args[1], env)
+        if not isinstance(seq, (tuple, list)) or not all(isinstance(v, (int, float, Fraction)) and not isinstance(v, bool) for v in seq):
+            raise AnalysisError(f'{self.rel}:{n.lineno} bisect over a non-constant table')
+        vals = [frac(v) for v in seq]
+        if any(vals[i] > vals[i + 1] for i in range(len(vals) - 1)):
+            raise AnalysisError(f'{self.rel}:{n.lineno} bisect over a table that is not sorted: the result is unspecified')
+        if not isinstance(x, Aff):
+            x = Aff(0, frac(x))
+        if x.a == 0:
+            import bisect as _b
+            fn = _b.bisect_left if kind == 'bisect_left' else _b.bisect_right
+            return [(fn(vals, x.b), dom)]
+        if x.a < 0:
+            raise AnalysisError(f'{self.rel}:{n.lineno} bisect on a decreasing function of the income')
+        out = []
+        rest = list(dom)
+        for k, v in enumerate(vals):
+            c = (v - x.b) / x.a
+            part, nxt = [], []
+            for iv in rest:
+                lo, hi = iv.split_lt(c, kind != 'bisect_left')      # left: x <= c ; right: x < c
+                if lo:
+                    part.append(lo)
+                if hi:
+                    nxt.append(hi)
+            if part:
+                out.append((k, part))
+            rest = nxt
+            if not rest:
+                break
+        if rest:
+            out.append((len(vals), rest))
+        return out
 
     def mentions_x(self, n, env):
         for x in ast.walk(n):
@@ -349,6 +400,18 @@ class PW:
             raise AnalysisError(f'{self.rel}:{n.lineno} call {unparse(n.func)} is outside the piecewise-affine subset')
         if isinstance(n, ast.JoinedStr):
             return '<message>'
+        if isinstance(n, (ast.ListComp, ast.GeneratorExp)) and len(n.generators) == 1 and not n.generators[0].is_async:
+            g = n.generators[0]
+            seq = self.ev(g.iter, env)
+            if not isinstance(seq, (tuple, list)):
+                raise AnalysisError(f'{self.rel}:{n.lineno} comprehension over a non-constant sequence')
+            out = []
+            for item in seq:
+                e2 = dict(env)
+                self.bind(g.target, item, e2)
+                if all(self.ev(c, e2) for c in g.ifs):
+                    out.append(self.ev(n.elt, e2))
+            return out
         raise AnalysisError(f'{self.rel}:{getattr(n, "lineno", 0)} expression {type(n).__name__} is outside the piecewise-affine subset')
 
     def arith(self, op, a, b, n):
